@@ -640,21 +640,47 @@ func unfoldInfoOf(c *core.Ctx) *unfoldInfo {
 		sl, ok := t.Underlying().(*types.Slice)
 		return ok && isHseqType(sl.Elem())
 	}
-	for _, b := range fn.Blocks {
-		for _, in := range b.Instrs {
-			call, ok := in.(*ssa.Call)
-			if !ok {
-				continue
+	// the calls of New, and of the unexported functions of the package New delegates to (an internal `newSeq(how, names)`)
+	type site struct {
+		call   *ssa.Call
+		callee *ssa.Function
+	}
+	var sites []site
+	var collect func(f *ssa.Function, depth int, seen map[*ssa.Function]bool)
+	collect = func(f *ssa.Function, depth int, seen map[*ssa.Function]bool) {
+		if f == nil || seen[f] || depth > 3 {
+			return
+		}
+		seen[f] = true
+		for _, b := range f.Blocks {
+			for _, in := range b.Instrs {
+				call, ok := in.(*ssa.Call)
+				if !ok {
+					continue
+				}
+				callee := call.Call.StaticCallee()
+				if callee == nil {
+					continue
+				}
+				if callee.Origin() != nil {
+					callee = callee.Origin()
+				}
+				if callee.Pkg != fn.Pkg || len(callee.Params) != len(call.Call.Args) {
+					continue
+				}
+				sites = append(sites, site{call, callee})
+				if o := callee.Object(); o != nil && !o.Exported() && callee != f {
+					collect(callee, depth+1, seen)
+				}
 			}
-			callee := call.Call.StaticCallee()
-			if callee == nil {
-				continue
-			}
-			if callee.Origin() != nil {
-				callee = callee.Origin()
-			}
-			if callee.Pkg != fn.Pkg || len(callee.Params) != len(call.Call.Args) {
-				continue
+		}
+	}
+	collect(fn, 0, map[*ssa.Function]bool{})
+	for _, s := range sites {
+		{
+			call, callee := s.call, s.callee
+			if call.Parent() != nil && call.Parent() == callee || call.Parent() != nil && call.Parent().Origin() == callee {
+				continue // the recursive call inside the unfolding function is not the root call
 			}
 			ui := &unfoldInfo{fn: callee, rootCall: call, catP: -1, offP: -1, seqP: -1, recvP: -1}
 			for i, p := range callee.Params {
@@ -689,6 +715,56 @@ func unfoldInfoOf(c *core.Ctx) *unfoldInfo {
 func isBasicKind(t types.Type, k types.BasicKind) bool {
 	b, ok := t.Underlying().(*types.Basic)
 	return ok && b.Kind() == k
+}
+
+// unfoldAnalysis: the unfolding function analysed on its own - with any further parameter it has (a traversal
+// policy handed down unchanged) bound to the closed value the exported constructor passes at the root call, so that
+// a decision delegated to a strategy value (`how.inline(fv, ft)`) is followed into the one strategy in use.
+func unfoldAnalysis(c *core.Ctx, ui *unfoldInfo) *ir.Analysis {
+	uf := ui.fn
+	var extra []int
+	for i := range uf.Params {
+		if i != ui.catP && i != ui.offP && i != ui.seqP && i != ui.recvP {
+			extra = append(extra, i)
+		}
+	}
+	root := c.W.Func("hseq", "New")
+	if len(extra) == 0 || root == nil {
+		return c.Analyze(uf)
+	}
+	var args []*ir.Term
+	for _, p := range c.AnalyzeLoops(root).AllPaths() {
+		for i := range p.Steps {
+			st := &p.Steps[i]
+			if (st.Kind == ir.KCall || st.Kind == ir.KEnter) && st.Instr != nil && st.Instr.Pos() == ui.rootCall.Pos() && len(st.A) == len(uf.Params) {
+				args = st.A
+			}
+		}
+	}
+	if args == nil {
+		return c.Analyze(uf)
+	}
+	closed := func(t *ir.Term) bool {
+		ok := true
+		t.Walk(func(x *ir.Term) {
+			switch x.Op {
+			case "param", "phi", "alloc", "free", "call", "load":
+				ok = false
+			}
+		})
+		return ok
+	}
+	params := make([]*ir.Term, len(uf.Params))
+	bound := false
+	for _, i := range extra {
+		if closed(args[i]) {
+			params[i], bound = args[i], true
+		}
+	}
+	if !bound {
+		return c.Analyze(uf)
+	}
+	return c.AnalyzeFrom(uf, ir.NewRootState(uf, params, nil, nil), "policy-bound")
 }
 
 func unfoldFunc(c *core.Ctx) (*ssa.Function, *ssa.Call) {
@@ -781,7 +857,7 @@ func offsRules(c *core.Ctx) {
 	}
 
 	// literal terms and the recursive call
-	an := c.Analyze(uf)
+	an := unfoldAnalysis(c, ui)
 	if problems(c, "offs-term", "hseq.unfold", an) {
 		return
 	}
